@@ -230,7 +230,11 @@ def run_all(k11, drv, cases, workdir, err_key_len, variants=None):
         shards.append(p)
     vt, _ = run_cmd([k11, os.devnull])
     vinfo = {}
+    selftest = {}
     for l in vt.splitlines():
+        if l.startswith("selftest "):
+            kv = dict(t.split("=", 1) for t in l.split() if "=" in t)
+            selftest[kv["var"]] = int(kv["errno"])
         if l.startswith("variant="):
             kv = dict(t.split("=", 1) for t in l.split())
             vinfo[kv["variant"]] = dict(used_arch=int(kv["used_arch"]), type=int(kv["type"][1:]),
@@ -253,6 +257,18 @@ def run_all(k11, drv, cases, workdir, err_key_len, variants=None):
                 if l.startswith("CRASH") or "HARNESS-TIMEOUT" in l:
                     crashes.append("%s: %s" % (v, l))
             k11_out[v] = parse_lines(o)
+    if not vinfo:
+        crashes.append("no implementation variant could be initialised: " + vt[-300:])
+    for v, e in selftest.items():
+        if e != 0:
+            crashes.append("init of %s fails its power-on self test (errno %d): helper outputs below come from a manager "
+                           "initialised anyway to locate the failing key" % (v, e))
+    ncase = len(cases)
+    for v in vnames:
+        ids = set(int(h["id"]) for h in k11_out.get(v, []) if h.get("var") == v)
+        nexp = sum(1 for (k, l) in cases if " op=iv_" not in l)
+        if len(ids) < nexp:
+            crashes.append("%s: only %d of %d cases produced output" % (v, len(ids), nexp))
     return vinfo, k11_out, model_lines, crashes
 
 
@@ -373,7 +389,7 @@ def main(tier, seed):
                   what="key material prepared by one variant gives a different job result on another variant")
         res.violation(rp, name="xv_%s" % op)
     if crashes:
-        res.violation(dict(property=PID, seed=seed, what="crash / hang inside a key-preparation helper or its harness", lines=crashes[:20]),
+        res.violation(dict(property=PID, seed=seed, what="crash / hang / missing output / failed manager initialisation while exercising the key-preparation helpers", lines=crashes[:20]),
                       name="crash")
     if broken_proof and not (groups or xgroups or crashes):
         res.violation(dict(property=PID, broken_obligations=pres["failed"], log=pres["log"][-2000:],
